@@ -29,7 +29,7 @@ LEVEL = "exploration"
 ENGINE = "sansio"
 BUDGET = {"quick": (1200, 22), "thorough": (60000, 240)}
 WORKERS = {"quick": 4, "thorough": 16}
-REQUIRED = ["up.parse", "up.match", "up.ambiguous", "down.parse", "down.match", "up.streamed", "down.streamed"]
+REQUIRED = ["up.parse", "up.match", "up.ambiguous", "down.parse", "down.match", "up.streamed", "down.streamed", "sequential_unsolicited_cases"]
 TECHNIQUE = "runtime monitoring: sans-io schedule exploration + differential wire oracle (independent RFC 9112 parser)"
 RULE = (
     "case = (mode, 1-4 pipelined generated requests with hostile framing features, hostile scripted responses, addon edit "
@@ -159,6 +159,11 @@ def _run_case(ctx, opts, addons, r, st):
     n = r.choice([1, 1, 2, 3, 4])
     reqs = [gen.gen_request(r, k, mode=gmode, allow_expect=True) for k in range(n)]
     by_tag = {q["tag"]: q for q in reqs}
+    # sequential client + origin writing unsolicited bytes behind complete responses (with a pipelining client their arrival
+    # races with the forwarding of the next request, see C02): the connection they arrived on must not be reused
+    unsolicited = n >= 2 and st is None and r.random() < 0.2
+    if unsolicited:
+        ctx.count("sequential_unsolicited_cases")
     resp_feats = set()
     resp_by_tag = {}
 
@@ -166,7 +171,7 @@ def _run_case(ctx, opts, addons, r, st):
         m = TAG.search(msg["target"])
         tag = m.group(0) if m else b"unknown"
         q = by_tag.get(tag)
-        rs = gen.gen_response(r, tag, msg["method"])
+        rs = gen.gen_response(r, tag, msg["method"], extra_after_p=0.5 if unsolicited else 0.0)
         resp_by_tag.setdefault(tag, rs)
         resp_feats.update(rs["feats"])
         return rs["raw"], rs["close_after"]
@@ -187,8 +192,9 @@ def _run_case(ctx, opts, addons, r, st):
     if mode == "transparent":
         d.context.server.address = ("example.com", 80)
     stream = b"".join(q["raw"] for q in reqs)
-    segs = peers.cut(stream, r, r.choice(["whole", "random", "random", "bytes"] if len(stream) < 3000 else ["whole", "random"]))
-    eof_early = r.random() < 0.3
+    seg_mode = r.choice(["whole", "random", "random", "bytes"] if len(stream) < 3000 else ["whole", "random"])
+    segs = peers.sequential_segments(reqs, r, seg_mode) if unsolicited else peers.cut(stream, r, seg_mode)
+    eof_early = r.random() < 0.3 and not unsolicited
     d.attach_client_peer(sansio.ScriptPeer(segs + ([sansio.EOF] if eof_early else [])))
     d.start()
     d.run()
